@@ -64,19 +64,19 @@ class error_html(object):
             for (err_cde, err_str) in err_st.errors:
                 if err_cde == '2':
                     self.fd.write('<span class="error">&nbsp;%s (Segment Error Code: %s)</span><br />\n' %
-                                  (err_str, err_cde))
+                                  (escape_html_chars(err_str), err_cde))
         err_gs = self.errh.cur_gs_node
         if err_gs is not None and not err_gs.is_closed():
             for (err_cde, err_str) in err_gs.errors:
                 if err_cde == '3':
                     self.fd.write('<span class="error">&nbsp;%s (Segment Error Code: %s)</span><br />\n' %
-                                  (err_str, err_cde))
+                                  (escape_html_chars(err_str), err_cde))
         err_isa = self.errh.cur_isa_node
         if err_isa is not None and not err_isa.is_closed():
             for (err_cde, err_str) in err_isa.errors:
                 if err_cde == '023':
                     self.fd.write('<span class="error">&nbsp;%s (Segment Error Code: %s)</span><br />\n' %
-                                  (err_str, err_cde))
+                                  (escape_html_chars(err_str), err_cde))
         self.fd.write('</div>\n')
         self.fd.write('<p>\n<a href="http://sourceforge.net/projects/pyx12/">pyx12 Validator</a>\n</p>\n')
         self.fd.write('</body>\n</html>\n')
@@ -133,7 +133,7 @@ class error_html(object):
                 err_str = err_tuple[1]
                 if err_cde == '3':
                     self.fd.write('<span class="error">&nbsp;%s (Segment Error Code: %s)</span><br />\n' %
-                                  (err_str, err_cde))
+                                  (escape_html_chars(err_str), err_cde))
         if self.loop_info:
             self.gen_info(self.loop_info)
         self.loop_info = None
@@ -146,13 +146,13 @@ class error_html(object):
                 err_str = err_tuple[1]
                 if err_cde != '3':
                     self.fd.write('<span class="error">&nbsp;%s (Segment Error Code: %s)</span><br />\n' %
-                                  (err_str, err_cde))
+                                  (escape_html_chars(err_str), err_cde))
             for ele in err_node.elements:
                 for (err_cde, err_str, err_val) in ele.get_error_list(seg_data.get_seg_id(), False):
                 #for (err_cde, err_str, err_val) in ele.errors:
                     if not (seg_data.get_seg_id() == 'GE' and 'GS' in err_str):  # Ugly hack
                         self.fd.write('<span class="error">&nbsp;%s (Element Error Code: %s)</span><br />\n' %
-                                      (err_str, err_cde))
+                                      (escape_html_chars(err_str), err_cde))
 
     def _seg_str(self, seg_id, ele_list):
         """
